@@ -41,6 +41,22 @@ theorem generate_core_indep (c : Hc128.Core) (res res' : Array U32) :
     (Hc128.generate c res).2 = (Hc128.generate c res').2 :=
   Hc128R.generate_core_indep c res res'
 
+/-- the core after `b` calls of `generate` when the `i`-th call is handed the buffer `bufs i` -/
+def coreAfterWith (seed : List U8) (bufs : Nat → Array U32) : Nat → Hc128.Core
+  | 0 => Hc128.fromSeedCore seed
+  | b + 1 => (Hc128.generate (coreAfterWith seed bufs b) (bufs b)).2
+
+/-- … which is `coreAfter seed b` for every choice of buffers. -/
+theorem coreAfterWith_eq (seed : List U8) (bufs : Nat → Array U32) (b : Nat) :
+    coreAfterWith seed bufs b = coreAfter seed b := by
+  induction b with
+  | zero => rfl
+  | succ b ih =>
+    show (Hc128.generate (coreAfterWith seed bufs b) (bufs b)).2 =
+      (Hc128.generate (coreAfter seed b) (Array.replicate 16 0)).2
+    rw [ih]
+    exact generate_core_indep _ _ _
+
 /-- Initialisation: the table built by `from_seed` is the pair of tables P, Q of the
     specification after its initialisation process (key/IV expansion and 1024 set-up
     steps), and the counter is 0. -/
